@@ -105,9 +105,24 @@ class BitEval(object):
             x = self.lin_bits(a[1], max(w + a[2], bits))
             x = [x[i] if i < bits else 0 for i in range(len(x))]
             return lshr(x, a[2], len(x))[:w]
+        if op == 'ashr' and isinstance(a[2], int):
+            # arithmetic shift of a possibly negative value: the low (bits - c) result bits are the operand's, the rest is sign fill
+            bits = a[3]
+            x = self.lin_bits_signed(a[1], bits)
+            v = [x[i + a[2]] if i + a[2] < bits else T for i in range(bits)]
+            return (v + [T] * w)[:w]
         if op == 'mod':
             x = self.lin_bits(a[1], w)
             return [x[i] if i < a[2] else 0 for i in range(w)]
+        return [T] * w
+
+    def lin_bits_signed(self, l, w):
+        """Two's-complement bits of a term that may be negative: single atom only (else unknown)."""
+        if isinstance(l, Lin) and len(l.t) == 1 and l.t[0][1] == 1 and l.c == 0:
+            return self.atom_bits(l.t[0][0], w)
+        lo, hi = self.st.range(l) if isinstance(l, Lin) else (l, l)
+        if lo >= 0:
+            return self.lin_bits(l, w)
         return [T] * w
 
     def lin_bits(self, l, w):
